@@ -398,6 +398,9 @@ func checkC05(c *Ctx) {
 
 	// ---- C05.errors ----
 	checkC05Errors(c, eff)
+	// "the implicit transaction is always finished": CommitOrRollbackTransaction finishes through (*DB).Commit/Rollback,
+	// which must reach the pool on every path (same rule as C04.forward)
+	checkTxForward(c, c.Rule("C05.finish-forward", "the Commit/Rollback that finish an implicit transaction reach the pool's Commit/Rollback (or report ErrInvalidTransaction) on every path", 6))
 
 	// ---- C05.same-handle ----
 	rh := c.Rule("C05.same-handle", "nested finisher/driver calls in package callbacks run on a handle derived from the enclosing function's own *DB", 15)
@@ -872,7 +875,6 @@ func namedOf(t types.Type) string {
 	return ""
 }
 
-
 // hookClosureSet: the function literals passed to callbacks.callMethod.
 func hookClosureSet(p *Program) map[*ssa.Function]bool {
 	out := map[*ssa.Function]bool{}
@@ -900,7 +902,6 @@ func hookClosureSet(p *Program) map[*ssa.Function]bool {
 	}
 	return out
 }
-
 
 // checkIdlePathsKeepPool: CommitOrRollbackTransaction touches the statement's pool only on paths that
 // finished an implicit transaction (shared by C04.pool-kept).
